@@ -286,8 +286,11 @@ def plan(prop, tier):
                     ("c07_walk_flat", C(NKeys=2, OpAlpha='{"s1","s2","d"}', MaxOps=2, MaxBatches=8, MaxPokes=1, SimLen=30, MaxReopens=1), 60 if q else 500),
                     ("c07_walk_pre", C(Tree='"a"', NKeys=2, OpAlpha='{"s1","s2","d"}', MaxOps=2, MaxBatches=8, MaxPokes=1, SimLen=34, MaxReopens=1, InitKeys="{1}"), 60 if q else 500)]
         P["edges"] = []
+        # nested children whose level in between holds no key of its own, under forced and leveled compaction
+        P["sim"].append(("c07_walk_kids2", C(Tree='"aa"', NKeys=1, OpAlpha='{"s1","s2","d"}', MaxOps=1, MaxBatches=6, MaxPokes=1, SimLen=24, MaxReopens=1), 40 if q else 300))
         allow = [partial(levelMaxSegs=m, levelMult=x) for (m, x) in ((2, 2), (2, 3), (3, 2))] + [dict(compaction="allow", levelMaxSegs=1, levelMult=2)]
         P["dims"] = {"c07_walk_kids": [dims("store", "a", 2, **a) for a in allow] + [dims("store", "a", 2, compaction="force")],
+                     "c07_walk_kids2": [dims("store", "aa", 1, compaction="force"), dims("store", "aa", 1, compaction="allow", levelMaxSegs=1, levelMult=2)],
                      "c07_walk_flat": [dims("store", **a) for a in allow[:2]],
                      "c07_walk_pre": [dims("store", "a", 2, preload=[1], **a) for a in (partial(levelMaxSegs=1), partial())]}
         P["relevant"] = r"^(lower|snapshot|reopen|heldstore|conformance)"
